@@ -145,7 +145,8 @@ def rand_history(rng, n_ops):
     start = [arg(False) for _ in range(rng.randint(0, 4))]
     ops = []
     for _ in range(n_ops):
-        o = rng.choice(["append", "append", "extend", "extend", "insert", "insert", "add", "radd", "iadd", "iadd", "slice", "mul", "imul", "rmul"])
+        o = rng.choice(["append", "append", "extend", "extend", "insert", "insert", "add", "radd", "iadd", "iadd", "slice", "mul", "imul", "rmul",
+                        "reverse", "pop", "del_slice", "copy"])
         if o == "append":
             ops.append({"op": o, "args": [arg() for _ in range(rng.choice([1, 1, 2, 3]))]})
         elif o in ("extend", "add", "radd", "iadd"):
@@ -161,8 +162,12 @@ def rand_history(rng, n_ops):
             ops.append({"op": o, "arg": a})
         elif o == "insert":
             ops.append({"op": o, "i": rng.randint(-8, 8), "arg": arg()})
-        elif o == "slice":
+        elif o in ("slice", "del_slice"):
             ops.append({"op": o, "a": rng.choice([None, 0, 1, -1, 2, -3]), "b": rng.choice([None, 0, 2, -1, 5]), "c": rng.choice([None, None, 1, 2, -1])})
+        elif o in ("reverse", "copy"):
+            ops.append({"op": o})
+        elif o == "pop":
+            ops.append({"op": o, "i": rng.choice([-1, 0, 1, -2])})
         else:
             ops.append({"op": o, "n": rng.choice([0, 1, 2, 3, -1])})
     return {"via": rng.choice(["taglist", "taglist", "tag", "fn"]), "start": start, "ops": ops}
@@ -299,7 +304,7 @@ def run_history(ctx, h):
             ctx.state("op_x_shape", (o, shape_of(op["arg"])))
         else:
             built, acc = None, []
-            ctx.state("op_x_shape", (o, "slice" if o == "slice" else "n=%d" % op["n"]))
+            ctx.state("op_x_shape", (o, "n=%d" % op["n"] if "n" in op else o))
         # ---- model effect
         new_model = None
         try:
@@ -327,6 +332,20 @@ def run_history(ctx, h):
                 m2, new_model = model, model * op["n"]
             elif o == "imul":
                 m2 = model * op["n"]
+            elif o == "reverse":
+                m2 = model[::-1]
+            elif o == "pop":
+                m2 = list(model)
+                if m2:
+                    try:
+                        m2.pop(op["i"])
+                    except IndexError:
+                        pass
+            elif o == "del_slice":
+                m2 = list(model)
+                del m2[slice(op["a"], op["b"], op["c"])]
+            elif o == "copy":
+                m2, new_model = model, list(model)
             model_ok = True
         except F.Unsupported:
             model_ok = False
@@ -357,6 +376,19 @@ def run_history(ctx, h):
                 new_live = op["n"] * live
             elif o == "imul":
                 live *= op["n"]
+            elif o == "reverse":
+                live.reverse()
+            elif o == "pop":
+                if len(live):
+                    try:
+                        live.pop(op["i"])
+                    except IndexError:
+                        pass
+            elif o == "del_slice":
+                del live[slice(op["a"], op["b"], op["c"])]
+            elif o == "copy":
+                import copy as _c
+                new_live = _c.copy(live) if si % 2 else live.copy()
             live_ok = True
         except TypeError:
             live_ok = False
